@@ -144,6 +144,7 @@ def run(chk):
 
 
 MUTANTS = [
+    ("tolerances exchanged in the driver call", "yastn/tn/mps/_dmrg.py", "                energy_tol, Schmidt_tol, max_sweeps,\n                opts_eigs, opts_svd, precompute, **kwargs)\n", "                Schmidt_tol, energy_tol, max_sweeps,\n                opts_eigs, opts_svd, precompute, **kwargs)\n", "U4"),
     ("penalty conjugates the input", "yastn/tn/mps/_env.py", "        return  tmp * (self.penalty * vdot(tmp, A))", "        return  tmp * (self.penalty * vdot(A, tmp))", "O5"),
     ("bra not conjugated", "yastn/tn/mps/_env.py", "        tmp = vecL @ self.bra.A[n].conj()\n        tmp = tensordot(self.op.A[n], tmp, axes=((0, 1), (1, 3)))", "        tmp = vecL @ self.bra.A[n]\n        tmp = tensordot(self.op.A[n], tmp, axes=((0, 1), (1, 3)))", "O5"),
     ("Ritz vector from unnormalised v0", "yastn/krylov/_krylov.py", "        Y.append(V[0].add(*V[1:], amplitudes=sit, **kwargs))", "        Y.append(v0.add(*V[1:], amplitudes=sit, **kwargs))", "O6"),
